@@ -683,6 +683,7 @@ package larking
 // (the chosen type is one of the offers or the default). Floats are reals.
 //@ func skipSpace serves C04 C09
 //@   ensures [suffix] len(rest) <= len(s)
+//@   ensures [no-leading-space C04] len(rest) == 0 || octetTypes[rest[0]] & isSpace == 0
 //@   loop 1 invariant 0 <= i && i <= len(s)
 //@   loop 1 decreases len(s) - i
 
@@ -696,8 +697,12 @@ package larking
 //@   loop 1 invariant 0 <= i && i <= len(s)
 //@   loop 1 decreases len(s) - i
 
+// (the element list of a header value is abandoned only at the end of the value
+// or at a character that is not white space: optional white space around the
+// "," separators never hides the remaining ranges)
 //@ func parseAccept serves C04 C09
 //@   modifies E$acceptSpec
+//@   assert at `if !strings.HasPrefix(s, ",") {` [list-continues-across-space C04] len(s) == 0 || octetTypes[s[0]] & isSpace == 0
 //@   loop 1 invariant -1 <= rangeindex && rangeindex < len(values)
 //@   loop 1 decreases len(values) - rangeindex
 //@   loop 2 decreases len(s)
@@ -903,3 +908,12 @@ package larking
 //@   requires p != nil
 //@   assert at "delete(p.segments, k)" [prune-only-dead-segments C11] maplen(s.methods) == 0 && len(s.variables) == 0 && maplen(s.segments) == 0
 //@   assert at "p.variables = append(" [prune-only-dead-variables C11] maplen(v.next.methods) == 0 && len(v.next.variables) == 0 && maplen(v.next.segments) == 0
+
+// The response Content-Type is set before the first message of a reply is
+// written, whether or not the handler already sent its headers (C04).
+//@ func (*streamHTTP).writeMsg serves C04 partial ghost count post
+//@   requires s != nil
+//@   count ctSet `h.Set("Content-Type"`
+//@   ensures [content-type-set-for-first-message C04] old(s.sendCount) == 0 ==> ctSet == 1
+//@   assert atcall `codec.WriteNext(` [content-type-before-body C04] count == 0 ==> ctSet == 1
+//@   assert atcall `s.opts.writeAll(` [content-type-before-body C04] count == 0 ==> ctSet == 1
